@@ -24,6 +24,7 @@ import (
 	"verifharness/evid"
 	"verifharness/gen"
 	"verifharness/refmodel"
+	"verifharness/sim"
 )
 
 // well-known mainnet event topics (fixed vectors for both Keccak implementations)
@@ -449,6 +450,116 @@ func TestC13_StoredIntegrations(t *testing.T) {
 				sigs = append(sigs, fmt.Sprintf("%s indexed=%d", byName[n].Signature(), byName[n].NumIndexed()))
 			}
 			ev.Sample(3, sigs)
+		}
+	})
+}
+
+// TestC13_Pipeline: the "if" direction through the whole pipeline (configuration file ->
+// validation -> request plan -> task): every log of the declared event produces its rows,
+// also when nothing in the declaration but the event itself says that logs are needed — the
+// selected inputs are all components of struct inputs and the block list names no log or
+// receipt field.
+func TestC13_Pipeline(t *testing.T) {
+	ev := evid.For("C13", "Pipeline")
+	rapid.Check(t, func(rt *rapid.T) {
+		pool := gen.NewPool()
+		d := gen.GenDecl(rt, gen.DeclOpts{Kinds: []string{"log"}, Pool: pool, Name: "ig", Table: "t",
+			Event: gen.EventOpts{Types: gen.TypeOpts{MaxDepth: 2, MaxTuple: 3, MaxFixed: 2}, MaxInputs: 4, AllowIndexed: true, SelProb: 50}})
+		d.Sources = []refmodel.SourceRef{{Name: "src1", Start: 1}}
+		shape := rapid.SampledFrom([]string{"as-drawn", "nested-only", "no-log-fields", "nested-only+no-log-fields"}).Draw(rt, "shape")
+		dropCols := map[string]bool{}
+		if strings.HasPrefix(shape, "nested-only") {
+			for _, in := range d.Event.Inputs {
+				if in.Column != "" {
+					dropCols[in.Column] = true
+					in.Column = ""
+				}
+			}
+			nested := false
+			for _, s := range d.Event.Selected() {
+				if s.Top.Column == "" {
+					nested = true
+				}
+			}
+			if !nested {
+				d.Event.Inputs = append(d.Event.Inputs, &refmodel.Type{Kind: refmodel.KTuple, Name: "tt", Fields: []*refmodel.Type{
+					{Kind: refmodel.KUint, Bits: 256, Name: "nx", Column: "nx"}, {Kind: refmodel.KAddress, Name: "na"}}})
+				d.Columns = append(d.Columns, refmodel.Column{Name: "nx", Type: "numeric"})
+			}
+		}
+		if strings.HasSuffix(shape, "no-log-fields") {
+			var keep []refmodel.BlockField
+			for _, b := range d.Block {
+				if cl := c14Class(b.Name); cl == "log" || cl == "receipt" || b.Name == "abi_idx" {
+					dropCols[b.Column] = true
+					continue
+				}
+				keep = append(keep, b)
+			}
+			d.Block = keep
+		}
+		for _, s := range d.Event.Selected() {
+			delete(dropCols, s.Column)
+		}
+		for _, b := range d.Block {
+			delete(dropCols, b.Column)
+		}
+		var cols []refmodel.Column
+		for _, c := range d.Columns {
+			if !dropCols[c.Name] {
+				cols = append(cols, c)
+			}
+		}
+		d.Columns = cols
+		var notify []string
+		for _, n := range d.Notify {
+			if !dropCols[n] {
+				notify = append(notify, n)
+			}
+		}
+		d.Notify = notify
+		co := gen.ChainOpts{MaxTxs: 2, MaxLogs: 4, Pool: pool, Values: gen.ValueOpts{MaxDynLen: 2, MaxBytes: 40}, Events: []*refmodel.Event{d.Event}}
+		node := sim.NewNode(sim.NewChain())
+		matching := 0
+		for i := rapid.IntRange(1, 3).Draw(rt, "nblocks"); i > 0; i-- {
+			txs := gen.GenTxs(rt, co)
+			for _, tx := range txs {
+				for _, l := range tx.Logs {
+					if l.Kind == "match" {
+						matching++
+					}
+				}
+			}
+			node.Chain.Append(txs)
+		}
+		w, err := NewWorld(quietT{}, []*SourceCfg{{Name: "src1", ChainID: 5, Batch: rapid.IntRange(1, 3).Draw(rt, "batch"), Conc: 1, Node: node}}, []*refmodel.Decl{d})
+		if w != nil {
+			defer w.Close()
+		}
+		desc := func() string {
+			m := &machine{decls: []*refmodel.Decl{d}, w: w}
+			return shape + " " + m.describeConfig()
+		}
+		if err != nil {
+			rt.Fatalf("VERIF-VIOLATION property=C13 configuration in the supported domain refused: %v\n %s", err, desc())
+		}
+		p := w.Pairs[0]
+		head := node.Chain.Head().Num
+		var last StepResult
+		for i := 0; i < 6; i++ {
+			if last = w.Step(p); last.Panic != nil {
+				rt.Fatalf("VERIF-VIOLATION property=C13 Converge panicked: %v\n %s", last.Panic, desc())
+			}
+		}
+		if c := w.Cursor(p); !c.OK || c.Num != head {
+			rt.Fatalf("VERIF-VIOLATION property=C13 indexing does not reach the head (%s of %d): %s %s\n %s", curStr(c), head, last.Outcome(), errString(last.Err), desc())
+		}
+		if v := w.CheckPair(p); v != "" {
+			rt.Fatalf("VERIF-VIOLATION property=C13 logs of the declared event and rows differ: %s\n %s", v, desc())
+		}
+		ev.Case(matching > 0 && shape != "as-drawn", desc(), "shape="+shape, fmt.Sprintf("matchingLogs>0=%v", matching > 0))
+		if matching > 0 && shape == "nested-only+no-log-fields" && ev.WantSample(3) {
+			ev.Sample(3, desc())
 		}
 	})
 }
